@@ -46,7 +46,7 @@ func init() {
 			return []runner.Phase{
 				{Name: "attempt-accounting", Variant: "race", Cases: n / 100, Run: c13accounting, CaseTimeout: 120 * time.Second, Required: []string{"attempts_recorded_concurrently"}},
 				{Name: "scenarios", Variant: "race", Cases: n, Run: c13case, CaseTimeout: 120 * time.Second,
-					Required: []string{"retry_same_host", "retry_next_host", "rethrow_or_ignore", "non_idempotent", "speculative", "ctx_cancelled", "budget_exhausted", "batches", "host_down_while_in_flight", "batch_reused_after_entries_changed", "speculative_batch_executions_seen"}},
+					Required: []string{"retry_same_host", "retry_next_host", "rethrow_or_ignore", "non_idempotent", "speculative", "ctx_cancelled", "budget_exhausted", "batches", "host_down_while_in_flight", "batch_reused_after_entries_changed", "speculative_batch_executions_seen", "sessions_with_cluster_retry_policy", "ctx_cancelled_between_attempts"}},
 			}
 		},
 	})
@@ -197,6 +197,8 @@ type c13nodeState struct {
 	cancelSeq map[string]int64
 	sess      *gocql.Session
 	hostDowns int64
+	cancelAfter map[string]bool      // cancel a moment after the failing answer was sent (between attempts) instead of before it
+	cancelT     map[string]time.Time // when cancel() had returned
 }
 
 func c13outcome(sc *fakenode.ServerConn, req *fakenode.Req, kind string) {
@@ -268,11 +270,29 @@ func (ns *c13nodeState) handler(idx int) fakenode.Handler {
 		ns.arrivals[token] = append(ns.arrivals[token], a)
 		cancel := ns.cancels[token]
 		doCancel := false
+		cancelLater := false
 		if at, ok := ns.cancelAt[token]; ok && at == all {
-			doCancel = true
-			ns.cancelSeq[token] = ns.seq
+			if ns.cancelAfter[token] {
+				cancelLater = true
+			} else {
+				doCancel = true
+				ns.cancelSeq[token] = ns.seq
+			}
 		}
 		ns.mu.Unlock()
+		if cancelLater && cancel != nil {
+			// the context ends between two attempts (e.g. during the retry policy's back-off), with no request in flight
+			defer func() {
+				go func() {
+					time.Sleep(time.Duration(60+all*40) * time.Microsecond)
+					cancel()
+					now := time.Now()
+					ns.mu.Lock()
+					ns.cancelT[token] = now
+					ns.mu.Unlock()
+				}()
+			}()
+		}
 		if doCancel && cancel != nil {
 			cancel()
 			time.Sleep(2 * time.Millisecond) // let the caller notice before the (failing) answer arrives
@@ -312,7 +332,7 @@ func c13case(c *runner.Ctx, i int) {
 	version := 3 + i%3
 	nn := 1 + r.Intn(5)
 	cl := fakenode.NewCluster(nn)
-	ns := &c13nodeState{script: map[string][]string{}, arrivals: map[string][]*c13arrival{}, cancelAt: map[string]int{}, cancels: map[string]context.CancelFunc{}, cancelSeq: map[string]int64{}}
+	ns := &c13nodeState{script: map[string][]string{}, arrivals: map[string][]*c13arrival{}, cancelAt: map[string]int{}, cancels: map[string]context.CancelFunc{}, cancelSeq: map[string]int64{}, cancelAfter: map[string]bool{}, cancelT: map[string]time.Time{}}
 	for k, nd := range cl.Nodes {
 		nd.Handler = ns.handler(k)
 	}
@@ -322,6 +342,12 @@ func c13case(c *runner.Ctx, i int) {
 	cfg.PoolConfig.HostSelectionPolicy = pol
 	cfg.PageSize = 0
 	cfg.DefaultTimestamp = false
+	clusterPolicy := r.Intn(4) == 0
+	if clusterPolicy {
+		// a session-wide retry policy; queries and batches that set their own (or none: RetryPolicy(nil)) override it
+		cfg.RetryPolicy = &gocql.SimpleRetryPolicy{NumRetries: 3}
+		c.Add("sessions_with_cluster_retry_policy", 1)
+	}
 	sess, err := cfg.CreateSession()
 	if err != nil {
 		c.Inconclusive("c13-session", err.Error())
@@ -403,9 +429,11 @@ func c13case(c *runner.Ctx, i int) {
 		ctx, cancel := context.WithCancel(context.Background())
 		ns.mu.Lock()
 		ns.script[token] = script
+		cancelAfter := cancelAt >= 0 && r.Intn(2) == 0
 		if cancelAt >= 0 {
 			ns.cancelAt[token] = cancelAt
 			ns.cancels[token] = cancel
+			ns.cancelAfter[token] = cancelAfter
 		}
 		ns.mu.Unlock()
 		obs := &c13observer{}
@@ -418,6 +446,8 @@ func c13case(c *runner.Ctx, i int) {
 			b.Entries = append(b.Entries, gocql.BatchEntry{Stmt: stmt, Idempotent: idem})
 			if rp != nil {
 				b.RetryPolicy(rp)
+			} else if clusterPolicy {
+				b.RetryPolicy(nil)
 			}
 			if sp != nil {
 				b.SpeculativeExecutionPolicy(sp)
@@ -428,6 +458,8 @@ func c13case(c *runner.Ctx, i int) {
 			q := sess.Query(stmt).WithContext(ctx).Idempotent(idem).Observer(obs)
 			if rp != nil {
 				q.RetryPolicy(rp)
+			} else if clusterPolicy {
+				q.RetryPolicy(nil)
 			}
 			if sp != nil {
 				q.SetSpeculativeExecutionPolicy(sp)
@@ -613,7 +645,25 @@ func c13case(c *runner.Ctx, i int) {
 				}
 			}
 			// context cancellation stops further attempts
-			if cancelAt >= 0 {
+			if cancelAt >= 0 && cancelAfter {
+				c.Add("ctx_cancelled_between_attempts", 1)
+				ns.mu.Lock()
+				ct, has := ns.cancelT[token]
+				ns.mu.Unlock()
+				if has {
+					// attempts the driver itself records as started after cancel() had returned cannot have put a request
+					// on the wire: at most as many requests reach servers as attempts were started up to then
+					allowed := 0
+					for _, a := range att {
+						if !a.start.After(ct) {
+							allowed++
+						}
+					}
+					if len(arr) > allowed {
+						fail("attempt-after-cancel:between-attempts", fmt.Sprintf("%d requests reached servers although only %d attempts had been started when the context was cancelled (between attempts)", len(arr), allowed))
+					}
+				}
+			} else if cancelAt >= 0 {
 				for _, a := range arr {
 					if a.seq > cseq && cseq > 0 {
 						fail("attempt-after-cancel", fmt.Sprintf("the context was cancelled during attempt %d, yet a later attempt arrived on node %d", cancelAt, a.node))
